@@ -88,6 +88,9 @@ struct compute_vec_div<L, T, Q, true> : public compute_vec_div<L, T, Q, false>
 	template<qualifier Q, int E0, int E1, int E2, int E3>
 	struct _swizzle_base1<2, int, Q, E0, E1, E2, E3, true> : public _swizzle_base1<2, int, Q, E0, E1, E2, E3, false> {};
 
+	template<qualifier Q, int E0, int E1, int E2, int E3>
+	struct _swizzle_base1<2, uint, Q, E0, E1, E2, E3, true> : public _swizzle_base1<2, uint, Q, E0, E1, E2, E3, false> {};
+
 	template<length_t L, qualifier Q, int E0, int E1, int E2, int E3>
 	struct _swizzle_base1<L, int, Q, E0,E1,E2,E3, true> : public _swizzle_base0<int, L>
 	{
